@@ -97,7 +97,7 @@ Proof.
   - cbn [w_ops mono]. repeat split; first [apply Z.leb_le; vm_compute; reflexivity | apply Z.ltb_lt; vm_compute; reflexivity].
   - destruct (run_outs w_state w_ops); reflexivity.
   - vm_compute. repeat constructor.
-  - reflexivity.
+  - vm_compute; reflexivity.
   - vm_compute; reflexivity.
   - vm_compute; reflexivity.
   - apply Z.leb_le; vm_compute; reflexivity.
